@@ -33,6 +33,9 @@ pub enum PatKind {
     Gz,
     /// arch/{}/app/foo.log: the index in an inner directory component
     DirInner,
+    /// arch/$ENV{VERIF_UNSET}-x/$ENV{VERIF_SUB}/app.{}.log: an unset variable
+    /// (left as it is) in front of a set one
+    EnvTwo,
     /// arch/{}-$ENV{VERIF_TEAM}.log with VERIF_TEAM = "team/api": the index ends
     /// up in a directory component only after expansion
     EnvSlash,
@@ -79,6 +82,11 @@ impl Names {
                         ("$ENV{VERIF_ARCH}/app.{}.log".to_string(), format!("{}/app.{{}}.log", a), false)
                     }
                     PatKind::DirInner => (format!("{}/{{}}/app/foo.log", a), format!("{}/{{}}/app/foo.log", a), false),
+                    PatKind::EnvTwo => {
+                        std::env::remove_var("VERIF_UNSET");
+                        std::env::set_var("VERIF_SUB", "sub");
+                        (format!("{}/$ENV{{VERIF_UNSET}}-x/$ENV{{VERIF_SUB}}/app.{{}}.log", a), format!("{}/$ENV{{VERIF_UNSET}}-x/sub/app.{{}}.log", a), false)
+                    }
                     PatKind::EnvSlash => {
                         std::env::set_var("VERIF_TEAM", "team/api");
                         (format!("{}/{{}}-$ENV{{VERIF_TEAM}}.log", a), format!("{}/{{}}-team/api.log", a), false)
@@ -519,6 +527,7 @@ pub fn check_instant(c: &InstantCtx, sink: &Sink) -> bool {
             }
         });
         if !found {
+            sink.fail("C05", "C05-I3", "chunk-lost-after-fault", format!("{}: {} is not intact under any managed name or the active path", c.when, what));
             sink.fail(
                 "C08",
                 "C08-I2",
